@@ -40,7 +40,7 @@ ASSUMPTIONS = [
     "reference PyTree model vf/models/pytree.py (cross-checked against jax.tree_util inside C09's run)",
 ]
 
-LEAF_KINDS = ["array", "union-arr", "int", "tuple-arr", "nt-arr", "pair", "array", "union", "union-bar", "str", "any", "array", "union-arr-bar"]
+LEAF_KINDS = ["array", "union-arr", "int", "tuple-arr", "nt-arr", "pair", "pair-any", "array", "union", "union-bar", "str", "any", "array", "union-arr-bar"]
 ARRAYISH = ("array", "union-arr", "tuple-arr", "union-arr-bar", "nt-arr")
 _PAIR_CLS = {}
 
@@ -52,6 +52,8 @@ def leaf_type(lk, spec):
         return str
     if lk == "pair":
         return tuple[int, int]
+    if lk == "pair-any":
+        return tuple[int, Any]  # second slot unconstrained
     if lk == "union":
         return Union[int, str]
     if lk == "union-bar":
@@ -79,6 +81,11 @@ def is_pair(d):
     return d[0] == "tuple" and len(d[1]) == 2 and all(c[0] == "leaf" and c[1][0] == "i" for c in d[1])
 
 
+def is_pair_any(d):
+    """(int, <any single object>): the second slot may be any leaf payload (a str, an int, an array)."""
+    return d[0] == "tuple" and len(d[1]) == 2 and d[1][0][0] == "leaf" and d[1][0][1][0] == "i" and d[1][1][0] == "leaf"
+
+
 def is_arr_int(d):
     return d[0] == "tuple" and len(d[1]) == 2 and d[1][0][0] == "leaf" and d[1][0][1][0] == "a" and d[1][1][0] == "leaf" and d[1][1][1][0] == "i"
 
@@ -88,6 +95,8 @@ def matches_flat(d, lk):
     lk = {"union-bar": "union", "union-arr-bar": "union-arr"}.get(lk, lk)
     if lk == "pair":
         return is_pair(d)
+    if lk == "pair-any":
+        return is_pair_any(d)
     if lk == "tuple-arr":
         return is_arr_int(d)
     if lk == "union-arr":
@@ -160,6 +169,8 @@ def expand_pairs(d):
     if k == "leaf":
         if d[1][0] == "pair":
             return ("tuple", [("leaf", ("i", d[1][1])), ("leaf", ("i", d[1][1] + 1))])
+        if d[1][0] == "pairany":
+            return ("tuple", [("leaf", ("i", d[1][1])), ("leaf", d[1][2])])
         if d[1][0] == "arrint":
             return ("tuple", [("leaf", ("a", d[1][1])), ("leaf", ("i", 7))])
         return d
@@ -239,7 +250,7 @@ def check_case(ctx, case):
         if got == dl.TRUE and obs.verdict(real, PyTree[L]) != dl.TRUE:
             raise Violation("idempotence", case, f"second identical check failed; {descr}")
     dl_ = depths_of_leaves(desc)
-    subtree_leaf = lk in ("pair", "tuple-arr", "nt-arr") and "pair-subtree" in case.get("flags", [])
+    subtree_leaf = lk in ("pair", "pair-any", "tuple-arr", "nt-arr") and "pair-subtree" in case.get("flags", [])
     nontrivial = len(dl_) >= 3 and len(set(dl_)) >= 2 and (subtree_leaf or has_empty(desc) or info.get("used_binding", False))
     ctx.note([lk, spec, case["tree"], case["prior"]], nontrivial,
              classes=[f"leaf-{lk}", f"got-{got}", f"nleaves-{min(len(dl_), 6)}"] + (["has-empty-or-none"] if has_empty(desc) else [])
@@ -260,7 +271,7 @@ def c08_case(draw):
         if o.ctx is not None and o.allowed == {dl.TRUE}:
             m = o.ctx
         case["prior"].append([[c01.tok_json(t) for t in ptoks], list(shape)])
-    allow = ("tuple", "list", "dict", "none", "nt", "custom") if lk not in ("pair", "tuple-arr", "nt-arr") else ("tuple", "list", "dict", "none", "custom")
+    allow = ("tuple", "list", "dict", "none", "nt", "custom") if lk not in ("pair", "pair-any", "tuple-arr", "nt-arr") else ("tuple", "list", "dict", "none", "custom")
     shape_desc = draw(gt.tree_desc(st.just(0), max_depth=4, max_leaves=12, allow=allow))
     nl = len(pt.leaves(shape_desc))
     payloads = []
@@ -308,6 +319,13 @@ def c08_case(draw):
             elif lk in ("union", "union-bar"):
                 payloads.append(draw(st.sampled_from([("f", draw(small)), ("a", [2])])) if wrong
                                 else draw(st.one_of(small.map(lambda v: ("i", v)), strs.map(lambda v: ("s", v)), ints.map(lambda v: ("i", v)))))
+            elif lk == "pair-any":
+                r = draw(st.integers(0, 9))
+                if r <= 7:
+                    payloads.append(("pairany", draw(ints), draw(st.sampled_from([("s", "t"), ("i", 5), ("a", [2]), ("f", 1)]))))
+                    case["flags"] = ["pair-subtree"]
+                else:
+                    payloads.append(("s", draw(strs)))
             elif lk == "pair":
                 r = draw(st.integers(0, 9))
                 if r <= 6:
